@@ -13,7 +13,7 @@ INFO = {
                "documented spelling resolves to a different function than documented; the terminator sets of all "
                "open-ended token readers of the expression language contain every argument separator (whitespace, "
                "`,`, `)`) and end of input, for all 256 byte values; compiled patterns are obtained only through "
-               "the cache, which is keyed by the pattern text it compiles. `(.f x)` pushes the root extractor first and strips exactly the dot; the --set stage is the outermost stage, so its bindings are in scope in every option position. The bounded regex cache is never asked for capacity 0, whatever size is configured.",
+               "the cache, which is keyed by the pattern text it compiles. `(.f x)` pushes the root extractor first and strips exactly the dot; the --set stage is the outermost stage, so its bindings are in scope in every option position. The bounded regex cache is never asked for capacity 0, whatever size is configured. The five expression options hand the whole option text to the expression reader.",
     "not_decided": "Evaluation equality across option positions on run-time values, and (.f x) == (f . x) beyond the "
                    "presence of the rewrite.",
     "trusted": ["sa/tables/aliases.toml (documented spellings)", "cached::SizedCache returns the value stored under an equal key"],
@@ -214,7 +214,7 @@ def run(ctx, rep):
         else:
             r.bad(caller, "compiles a pattern without the cache", c.where())
     for fn in ("match_regex", "extract_regex_group"):
-        bs = [b for n, b in lib.bodies.items() if n.startswith("<functions::string::regex::%s::get::" % fn)
+        bs = [b for n, b in lib.bodies.items() if n.startswith("<functions::string::regex::%s::" % fn)
               and n.endswith("as selection::Get>::get")]
         if not bs:
             continue
@@ -223,6 +223,37 @@ def run(ctx, rep):
         else:
             r.bad("regex::" + fn, "does not obtain its pattern from Context::compile_regex", bs[0].where())
     c13_shared.cache_key(rep, lib)
+    # ------------------------------------------------------------ WHOLE-TEXT
+    r = rep.rule("C13-WHOLE-TEXT", "--filter, --split-by, --group-by, --select and --sort-by hand the whole option "
+                 "text to the expression reader: the string the reader is built over (reader::from_string) is the "
+                 "from_str parameter itself (copied / converted, never sliced, trimmed or split beforehand) - so the "
+                 "expression is delimited by the expression grammar alone, as in every other position", floor=5,
+                 analysis="A4 provenance of the argument of reader::from_string in each option parser")
+    from rules import c18 as _c18
+    IDENT = common.LOOK + ("ToString>::to_string", "string::ToString::to_string", "String::as_str",
+                           "ToOwned>::to_owned", "borrow::ToOwned::to_owned", "String::from", "From<&str>>::from")
+    for short_, name in _c18.ALL6:
+        if short_ == "PreSet":
+            continue            # `name=expression`: the text is split at the first `=` by design
+        pb = lib.bodies.get(name)
+        if pb is None:
+            r.missing(name)
+            continue
+        fs = [c for c in pb.calls if (c.name or "").endswith("reader::from_string")]
+        if len(fs) != 1:
+            r.bad(short_ + "::from_str", "expected one reader over the option text, found %d (unrecognised idiom)"
+                  % len(fs), pb.where())
+            continue
+        ppr = Prov(pb, IDENT)
+        at = ppr.call_arg_origins(fs[0], 0)
+        other = sorted(str(a) if a[0] != "call" else "result of %s" % (pb.call_at[a[1]].name or "?")
+                       for a in at if not (a[0] == "via" or (a[0] == "arg" and a[1] == 1 and not a[2])))
+        if other:
+            r.bad(short_ + "::from_str", "the expression reader is built over a string derived from %s, not over the "
+                  "option text itself: part of the text is cut off or rewritten before the expression is read"
+                  % other[:2], fs[0].where())
+        else:
+            r.ok(short_ + "::from_str", "reader::from_string(option text)", fs[0].where())
     # ------------------------------------------------------------ CACHE-SIZE
     r = rep.rule("C13-CACHE-SIZE", "RegexCache::new works for every configured size: the bounded cache is never asked "
                  "for capacity 0 (cached::SizedCache::with_size panics on 0), whatever size is configured", floor=2,
